@@ -82,6 +82,23 @@ def handle (j : Json) : Json :=
        let r := Runtime.lineInfo (ls.toList.map String.toList) n
        Json.arr #[Json.num (r.1 : Nat), Json.num (r.2 : Nat)]
      | _, _ => Json.mkObj [("error", Json.str "bad lineinfo request")])
+  | .ok "intern" =>
+    -- one compilation's `to_index` calls replayed from the table "table" (the repaired code starts from [])
+    let refOf (a : Array Json) : Option Runtime.Ref :=
+      match a.toList with
+      | [l, o, f, n] => (match l.getNat?, o.getNat?, f.getStr?, n.getNat? with
+          | .ok l, .ok o, .ok f, .ok n => some ⟨l, o, f, n⟩
+          | _, _, _, _ => none)
+      | _ => none
+    let refJson (r : Runtime.Ref) : Json := Json.arr #[Json.num (r.lineno : Nat), Json.num (r.offset : Nat), Json.str r.file, Json.num (r.length : Nat)]
+    (match j.getObjValAs? (Array (Array Json)) "table", j.getObjValAs? (Array (Array Json)) "refs" with
+     | .ok t, .ok rs =>
+       (match t.toList.mapM refOf, rs.toList.mapM refOf with
+        | some t, some rs =>
+          let p := Runtime.internAll t rs
+          Json.mkObj [("indices", Json.arr (p.1.map fun (i : Nat) => Json.num i).toArray), ("table", Json.arr (p.2.map refJson).toArray)]
+        | _, _ => Json.mkObj [("error", Json.str "bad reference")])
+     | _, _ => Json.mkObj [("error", Json.str "bad intern request")])
   | .ok "c15cells" => Json.mkObj [
       ("cellAgrees", failingRows C15.cellAgrees),
       ("checkerSound", Json.arr ((checkerTable.filter (fun r => !C15.checkerCellSound r || !C15.checkerCellProgress r)).map fun r =>
